@@ -13,8 +13,13 @@ Correspondence: per session the executed mutating calls of the killed update, th
 history file left behind, what a new controller reads and loads; per completed update its call
 trace and the disk after it — against the Lean model (Model/Checkpoint.lean, repaired variant).
 Property (on the implementation alone): after every crash a new controller reads a prefix of the
-uninterrupted history, loads exactly the states saved for the last and the best recorded epoch,
-and the continued run ends with the uninterrupted history file (byte for byte) and final state;
+uninterrupted history, loads exactly the states saved for the last and the best recorded epoch —
+the FULL state: every entry of the model's state dict, every hyper-parameter of every parameter
+group of the optimizer (the learning rate the controller itself rewrites included) and every
+per-parameter state tensor, bit for bit what the uninterrupted run held after that epoch —,
+and the continued run, which makes genuine optimizer steps (their size depends on the learning
+rate and on the momentum / moment buffers), ends with the uninterrupted history file (byte for
+byte) and the uninterrupted final state (bit for bit);
 after every completed update of a keep-last-and-best run the directory holds exactly those
 epochs' files; a keep-everything run keeps every recorded epoch loadable.
 """
@@ -46,6 +51,15 @@ TORN = "C16.history.torn_row"
 ES_RLR = {"early_stopping_threshold": 0.05, "early_stopping_patience": 2, "early_stopping_burnin": 1,
           "reduce_lr_threshold": 0.05, "reduce_lr_patience": 2, "reduce_lr_factor": 0.5,
           "reduce_lr_cooldown": 1, "reduce_lr_burnin": 1, "log10_learning_rate": -1.0}
+
+
+# learning-rate reduction alone, patience 1, no cool-down: a reduction at EVERY epoch that does not improve by
+# the threshold (several reductions in one run; the rate comes from the optimizer's defaults, 0.5, and is
+# halved: every value is dyadic and has at most 5 significant digits, so neither float arithmetic nor the
+# '{:.4e}' of the history file rounds — rounding of the persisted rate is C15's known finding)
+RLR = {"reduce_lr_threshold": 0.05, "reduce_lr_patience": 1, "reduce_lr_factor": 0.5,
+       "reduce_lr_cooldown": 0, "reduce_lr_burnin": 0}
+OPTIMS = ("sgd", "adam")
 
 
 def has_epoch(fmt):
@@ -87,10 +101,31 @@ def norm_trace(tr, sort_removes):
     return out
 
 
-def norm_disk(d):
-    return {"files": sorted([list(x) for x in d["files"]], key=json.dumps),
-            "tmps": sorted([list(x) for x in d["tmps"]], key=json.dumps),
+def norm_content(c, tab=None):
+    """A file's content as the model describes it: ["model", w] / ["optim", tag, lr]. Implementation side:
+    the digest of the full state dict is dropped; model side (`tab` given): the learning-rate id becomes
+    the learning rate."""
+    c = list(c)
+    if c and c[0] == "model":
+        return c[:2]
+    if c and c[0] == "optim":
+        lr = c[2] if len(c) > 2 else None
+        if tab is not None:
+            lr = tab[lr] if isinstance(lr, int) and 0 <= lr < len(tab) else ["lr-id", lr]
+        return [c[0], c[1], lr]
+    return c
+
+
+def norm_disk(d, tab=None):
+    return {"files": sorted([list(x[:2]) + [norm_content(x[2], tab)] for x in d["files"]], key=json.dumps),
+            "tmps": sorted([norm_content(x, tab) for x in d["tmps"]], key=json.dumps),
             "csv": d["csv"]}
+
+
+def norm_state(st, tab):
+    if isinstance(st, list) and len(st) == 3 and isinstance(st[2], int) and 0 <= st[2] < len(tab):
+        return [st[0], st[1], tab[st[2]]]
+    return st
 
 
 class C16(PropertyCheck):
